@@ -211,7 +211,10 @@ func (t *sseClientTransport) start(ctx context.Context) error {
 	contentType := resp.Header.Get("Content-Type")
 	if !strings.Contains(contentType, "text/event-stream") {
 		resp.Body.Close()
-		return fmt.Errorf("%w: expected text/event-stream, got %s", ErrInvalidContentType, contentType)
+		// The header value is logged, not quoted in the error: error texts are pattern-matched by the
+		// retry classifier, and this one would carry peer-controlled words.
+		t.logger.Errorf("SSE connect: expected content type text/event-stream, got %q", contentType)
+		return fmt.Errorf("%w: expected text/event-stream", ErrInvalidContentType)
 	}
 
 	t.sseConn.mutex.Lock()
